@@ -13,7 +13,7 @@ mod io_;
 
 use crate::engine::*;
 use crate::gen::{dense_u128, dense_u32, pick_idx, U128};
-use io_::{drive, MemReader, MemSock, EOF_POLL_LIMIT};
+use io_::{drive, MemReader, MemSock, MemWriter, EOF_POLL_LIMIT};
 use proptest::prelude::*;
 use rpki::crypto::keys::KeyIdentifier;
 use rpki::resources::addr::{MaxLenPrefix, Prefix};
@@ -297,6 +297,29 @@ impl Lib {
         };
         r.map_err(|e| Fail::new(format!("write into a Vec failed: {}", e)))?;
         Ok(out)
+    }
+
+    /// The same through a writer that takes short writes of the given sizes
+    /// (and offers vectored writes): the octets on the wire must not depend on
+    /// how the writer accepts them.
+    fn write_short(&self, chunks: &[u8]) -> Result<Vec<u8>, Fail> {
+        let mut w = MemWriter::new(chunks);
+        let r = match self {
+            Lib::SerialNotify(p) => drive("write (short writes)", p.write(&mut w))?,
+            Lib::SerialQuery(p) => drive("write (short writes)", p.write(&mut w))?,
+            Lib::ResetQuery(p) => drive("write (short writes)", p.write(&mut w))?,
+            Lib::CacheResponse(p) => drive("write (short writes)", p.write(&mut w))?,
+            Lib::V4(p) => drive("write (short writes)", p.write(&mut w))?,
+            Lib::V6(p) => drive("write (short writes)", p.write(&mut w))?,
+            Lib::EodV0(p) => drive("write (short writes)", p.write(&mut w))?,
+            Lib::EodV1(p) => drive("write (short writes)", p.write(&mut w))?,
+            Lib::CacheReset(p) => drive("write (short writes)", p.write(&mut w))?,
+            Lib::RouterKey(p) => drive("write (short writes)", p.write(&mut w))?,
+            Lib::Error(p) => drive("write (short writes)", p.write(&mut w))?,
+            Lib::Aspa(p) => drive("write (short writes)", p.write(&mut w))?,
+        };
+        r.map_err(|e| Fail::new(format!("write into a short-writing writer failed: {}", e)))?;
+        Ok(w.out)
     }
 
     /// The library's own idea of the PDU size, where it has one.
@@ -912,6 +935,13 @@ fn run_roundtrip(c: &SeqCase, obs: &mut Obs) -> CheckResult {
             ensure!(sz as usize == bytes.len(), "PDU {} {:?}: size() = {}, {} octets written", i, spec, sz, bytes.len());
         }
         ensure!(t == lib.kind().type_byte(), "PDU {} {:?}: type octet {}", i, spec, t);
+        // the same octets through a writer that accepts them in short writes
+        let short = lib.write_short(&c.chunks)?;
+        ensure_sig!(
+            &short == bytes, "write-depends-on-writer",
+            "PDU {} {:?}: {} octets arrive at a writer taking short writes {:?}, {} at a Vec (length field {})",
+            i, spec, short.len(), c.chunks, bytes.len(), len
+        );
         stream.extend_from_slice(bytes);
         // every reader on this PDU followed by the rest of the sequence
         let mut tail = bytes.clone();
@@ -1292,6 +1322,12 @@ fn run_payload(c: &PayCase, obs: &mut Obs) -> CheckResult {
     drive("Payload::write", p.write(&mut bytes))?.map_err(|e| Fail::new(format!("write: {}", e)))?;
     let Some((ver, _, len)) = header_of(&bytes) else { return Err(Fail::new("fewer than 8 octets written")) };
     ensure!(len as usize == bytes.len(), "length field {} but {} octets written for {:?}", len, bytes.len(), c);
+    {
+        let mut w = MemWriter::new(&c.chunks);
+        drive("Payload::write (short writes)", p.write(&mut w))?.map_err(|e| Fail::new(format!("write: {}", e)))?;
+        ensure_sig!(w.out == bytes, "write-depends-on-writer",
+            "Payload::write: {} octets arrive at a writer taking short writes {:?}, {} at a Vec, for {:?}", w.out.len(), c.chunks, bytes.len(), c);
+    }
     ensure!(ver == c.version, "version octet {} for {:?}", ver, c);
     let mut r = MemReader::new(&bytes, &c.chunks);
     let back = match drive("Payload::read", pdu::Payload::read(&mut r))? {
@@ -1599,11 +1635,11 @@ pub fn property() -> Property {
             "libFuzzer target rtr_stream is a separate deliverable and not part of this module",
         ],
         subs: vec![
-            PropSub { name: "roundtrip", strategy: seq_strategy, cases: |t| t.pick(300_000, 6_000_000), run: run_roundtrip, floors: KIND_FLOORS }.boxed(),
+            PropSub { name: "roundtrip", strategy: seq_strategy, cases: |t| t.pick(900_000, 6_000_000), run: run_roundtrip, floors: KIND_FLOORS }.boxed(),
             PropSub {
                 name: "payload",
                 strategy: pay_strategy,
-                cases: |t| t.pick(300_000, 4_000_000),
+                cases: |t| t.pick(900_000, 4_000_000),
                 run: run_payload,
                 floors: &[("k:ipv4", 0.1), ("k:ipv6", 0.1), ("k:router-key", 0.15), ("k:aspa", 0.15), ("announce", 0.2), ("withdraw", 0.2)],
             }
@@ -1611,7 +1647,7 @@ pub fn property() -> Property {
             PropSub {
                 name: "truncate",
                 strategy: seq_strategy_small,
-                cases: |t| t.pick(12_000, 200_000),
+                cases: |t| t.pick(30_000, 200_000),
                 run: run_truncate,
                 floors: &[("body-truncation", 0.45), ("k:router-key", 0.08), ("k:error", 0.08), ("k:aspa", 0.08), ("k:end-of-data", 0.08)],
             }
@@ -1619,7 +1655,7 @@ pub fn property() -> Property {
             PropSub {
                 name: "corrupt",
                 strategy: corrupt_strategy,
-                cases: |t| t.pick(400_000, 8_000_000),
+                cases: |t| t.pick(1_200_000, 8_000_000),
                 run: run_corrupt,
                 floors: &[("f:type", 0.15), ("f:version", 0.1), ("f:length", 0.25), ("exp:err", 0.4), ("exp:ok", 0.05)],
             }
@@ -1628,7 +1664,7 @@ pub fn property() -> Property {
             PropSub {
                 name: "client",
                 strategy: client_strategy,
-                cases: |t| t.pick(60_000, 1_500_000),
+                cases: |t| t.pick(180_000, 1_500_000),
                 run: run_client,
                 floors: &[("fault:none", 0.1), ("fault:truncate", 0.15), ("fault:corrupt", 0.25), ("must-err", 0.15), ("downgrade", 0.15), ("cache-reset-first", 0.1)],
             }
